@@ -233,6 +233,15 @@ def driver(args):
     prune_cache(th)
     m = merge(reports)
 
+    # Monitors of *other* properties stay installed while this workload runs (they observe every
+    # call); their failures are reported as cross-observations but only this property's own monitors
+    # decide this property's verdict.
+    def own(key):
+        return key.startswith((prop + ":", prop + ".", "exception-in-repo", "crash"))
+    foreign = {k: v for k, v in m["violation_keys"].items() if not own(k)}
+    m["violation_keys"] = {k: v for k, v in m["violation_keys"].items() if own(k)}
+    m["violations"] = [v for v in m["violations"] if own(v["key"])]
+
     known = load_known()
     open_keys = {f["key"]: f for f in known.get("findings", [])
                  if f["property"] == prop and f.get("status", "open") == "open"}
@@ -320,6 +329,7 @@ def driver(args):
                 "inconclusive_reasons": inconclusive,
                 "known_findings_seen": sorted(known_hit),
                 "violation_keys": m["violation_keys"],
+                "failures_of_other_properties_monitors": foreign,
                 "tree_hash": th,
             },
             "assumptions": getattr(mod, "ASSUMPTIONS", []),
@@ -340,6 +350,9 @@ def driver(args):
     print(f"[{prop}] monitor evaluations: {mons}")
     if m["counters"]:
         print(f"[{prop}] observed: " + ", ".join(f"{k}={v}" for k, v in sorted(m["counters"].items())))
+    if foreign:
+        print(f"[{prop}] note: monitors of other properties failed during this workload "
+              f"(not part of this verdict): {foreign}")
     if violated:
         shown = set()
         for v, path in new_viol:
